@@ -79,7 +79,10 @@ def generate(rng, tier):
         d = {"Eigenvalues": [rng.uniform(0, 50) * rng.choice([1, 1e-9, 1e7]) for _ in range(rng.choice([1, kk, kk + 2]))]}
         if rng.random() < 0.8:
             d["Eigenvectors"] = [[rng.gauss(0, 1) for _ in range(kk)] for _ in range(n)]
-        for key, val in (("Creator", "shapeDNA-tria"), ("File", "surf/lh.white"), ("User", "somebody"), ("Refine", 0), ("Degree", 1),
+        strs = rng.choice([("shapeDNA-tria", "surf/lh.white", "somebody"),
+                           ("LaPy 1.0: python", "C:\\data\\subj 01\\lh.white", "user@host:/home/u"),      # colons, spaces, backslashes
+                           ("tool (v2) 12:30:05", "http://example.org/a:b/mesh.vtk", "a:b:c")])
+        for key, val in (("Creator", strs[0]), ("File", strs[1]), ("User", strs[2]), ("Refine", 0), ("Degree", 1),
                          ("Dimension", 2), ("Elements", 320), ("DoF", 162), ("NumEW", kk), ("Area", 12.566), ("Volume", 4.18),
                          ("BLength", 0.0), ("EulerChar", 2), ("TimePre", 1), ("TimeCalcAB", 2), ("TimeCalcEW", 30)):
             if rng.random() < 0.6:
